@@ -1,6 +1,7 @@
 """C15 tie A plumbing: the in-process driver of the real macro pipeline (ascent_macro/src/verif_driver.rs, cargo feature
-verif-hooks) is built once as a test binary and then run directly, sharded over the CPUs; programs that may not terminate
-are run one per process under a time limit.  Error messages are mapped to kinds by regular expressions."""
+verif-hooks) is built once as a test binary and then run directly, sharded over the CPUs; programs of a shape that once did not
+terminate (macros invoking themselves twice per level: 2^100 expansions before fix deae510) are run one per process under a generous
+time limit — a safety net: exceeding it is the outcome `hang`, which the check counts as a failure.  Error messages are mapped to kinds by regular expressions."""
 import json, os, re, subprocess, tempfile, threading, time
 from . import core
 
@@ -105,8 +106,8 @@ def run_file(exe, lines, timeout):
     return res, timed_out
 
 
-def run_programs(exe, progs, hazards=(), shard_timeout=600, hazard_timeout=6):
-    """progs / hazards: [(id, kind, text)] -> {id: outcome string}; a hazard that exceeds its time limit is reported as 'hang'"""
+def run_programs(exe, progs, alone=(), shard_timeout=600, alone_timeout=30):
+    """progs / alone: [(id, kind, text)] -> {id: outcome string}; `alone`: one process per program, exceeding the time limit is reported as 'hang'"""
     n = max(1, min(core.NCPU, (len(progs) + 199) // 200))
     shards = [progs[k::n] for k in range(n)]
     out, lock, ths = {}, threading.Lock(), []
@@ -124,7 +125,7 @@ def run_programs(exe, progs, hazards=(), shard_timeout=600, hazard_timeout=6):
             with lock: out[rest[0][0]] = "hang" if to else "panic process died (abort / stack overflow)"
             todo = rest[1:]
     def hz(x):
-        res, to = run_file(exe, [f"{x[0]}\t{x[1]}\t{x[2]}"], hazard_timeout)
+        res, to = run_file(exe, [f"{x[0]}\t{x[1]}\t{x[2]}"], alone_timeout)
         o = res.get(x[0], [None])[0]
         with lock: out[x[0]] = o if o is not None else ("hang" if to else "panic process died (abort / stack overflow)")
     for sh in shards:
@@ -132,7 +133,7 @@ def run_programs(exe, progs, hazards=(), shard_timeout=600, hazard_timeout=6):
     sem = threading.Semaphore(max(2, core.NCPU // 2))
     def hz_lim(x):
         with sem: hz(x)
-    for x in hazards: ths.append(threading.Thread(target=hz_lim, args=(x,)))
+    for x in alone: ths.append(threading.Thread(target=hz_lim, args=(x,)))
     for t in ths: t.start()
     for t in ths: t.join()
     return out
